@@ -215,6 +215,14 @@ fn requests(inp: &Input, rng: &mut Rng, quick: bool, special: bool) -> Vec<(Opti
             }
         }
     }
+    // candidates outside 1..n (outside the property's precondition; exercises the modelled index
+    // panics: `signed_excludes[|x| - 1]` with x = 0 or |x| > n)
+    if rng.chance(1, 8) {
+        let mut c: Vec<u32> = (1..=n).collect();
+        c.push(if rng.coin() { 0 } else { n + 1 });
+        rng.shuffle(&mut c);
+        reqs.push((Some(c), vec![], rng.coin()));
+    }
     reqs
 }
 
